@@ -491,6 +491,14 @@ func (e *Enc) callExternal(ci ssa.CallInstruction, c *ssa.CallCommon, name strin
 	case "sync.NewCond":
 		r := e.allocRef(types.Typ[types.Int])
 		return []Term{r}, nil
+	case "invoke:sync.Locker.Lock", "invoke:sync.Locker.Unlock":
+		// a Locker held in an interface (sync.Cond.L): the lock is identified by the pointer inside the interface
+		nm := "(*sync.Mutex).Lock"
+		if strings.HasSuffix(name, "Unlock") {
+			nm = "(*sync.Mutex).Unlock"
+		}
+		e.onSync(ci, nm, []Term{App(SInt, "ival", args[0])})
+		return nil, nil
 	case "(*sync.Mutex).Lock", "(*sync.Mutex).Unlock", "(*sync.RWMutex).Lock", "(*sync.RWMutex).Unlock",
 		"(*sync.RWMutex).RLock", "(*sync.RWMutex).RUnlock", "(*sync.Cond).Wait", "(*sync.Cond).Broadcast", "(*sync.Cond).Signal",
 		"(*sync.WaitGroup).Add", "(*sync.WaitGroup).Done", "(*sync.WaitGroup).Wait":
@@ -637,6 +645,20 @@ func (e *Enc) onSync(ci ssa.CallInstruction, name string, args []Term) {
 	case "(*sync.RWMutex).RUnlock":
 		e.oblige("SAFE", "runlock", nil, Eq(Select(held, a), IntLit(1)), "RUnlock of a mutex not read-locked by this thread", pos)
 		e.set(e.cur, "L$held", Store(held, a, IntLit(0)))
+	case "(*sync.Cond).Wait":
+		// Wait unlocks c.L, sleeps and locks it again: the caller must hold it (unlocking an unlocked mutex is fatal)
+		if ci != nil {
+			if pt, ok := ci.Common().Args[0].Type().Underlying().(*types.Pointer); ok {
+				if st, ok := pt.Elem().Underlying().(*types.Struct); ok {
+					for k := 0; k < st.NumFields(); k++ {
+						if st.Field(k).Name() == "L" {
+							l := e.loadPtr(e.cur, App(SInt, "+", a, IntLit(int64(k+1))), st.Field(k).Type())
+							e.oblige("SAFE", "cond-wait", nil, Eq(Select(held, App(SInt, "ival", l)), IntLit(2)), "Cond.Wait without holding the condition's lock", pos)
+						}
+					}
+				}
+			}
+		}
 	}
 }
 
